@@ -760,7 +760,7 @@ pub fn run(ctx: &mut Ctx) {
     let t = ctx.tier;
     ctx.run_part::<Laws>(t.pick(600_000, 30_000_000));
     ctx.run_part::<TemplateAgreement>(t.pick(150_000, 8_000_000));
-    ctx.run_part::<Filters>(t.pick(60_000, 4_000_000));
+    ctx.run_part::<Filters>(t.pick(60_000, 1_500_000));
     if !ctx.sub {
         // second map implementation (IndexMap) + unicode + speedups build
         ctx.run_variant("MJV_ALT", "alt");
